@@ -231,10 +231,16 @@ func (e *balEngine) run() {
 		for _, m := range []string{"totalSupply", "symbol", "decimals", "version"} {
 			add(e.bal, "balance", m)
 		}
-		for _, kv := range w.Scan(w.C["balance"].ID, []byte{'a'}) {
+		raw := RawBalanceAccounts(w.Scan(w.C["balance"].ID, nil))
+		var addrs []string
+		for a := range raw {
+			addrs = append(addrs, a)
+		}
+		sort.Strings(addrs)
+		for _, a := range addrs {
 			// lock metadata is not reachable through the API; it decides what the
 			// next tick returns, so it is part of what an upgrade must preserve
-			out = append(out, fmt.Sprintf("balance.account[%x]=%x", kv.K, kv.V))
+			out = append(out, fmt.Sprintf("balance.account[%x]=%x", a, raw[a].Value))
 		}
 		for _, m := range []string{"epoch", "netmap", "netmapCandidates", "listConfig", "version"} {
 			add(e.nm, "netmap", m)
@@ -1052,13 +1058,8 @@ type balSnap struct {
 func (e *balEngine) snapshot() balSnap {
 	w := e.w
 	s := balSnap{acc: map[string]balAcc{}}
-	for _, kv := range w.Scan(w.C["balance"].ID, []byte{'a'}) {
-		it, err := stackitem.Deserialize(kv.V)
-		if err != nil {
-			harnessf("account %x: %v", kv.K, err)
-		}
-		f := ItemArr(it)
-		s.acc[string(kv.K[1:])] = balAcc{bal: ItemInt(f[0]), until: ItemInt(f[1]).Int64(), parent: string(ItemBytes(f[2]))}
+	for a, rec := range RawBalanceAccounts(w.Scan(w.C["balance"].ID, nil)) {
+		s.acc[a] = balAcc{bal: rec.Balance, until: rec.Until, parent: string(rec.Parent)}
 	}
 	s.supply = w.ReadInt(e.bal, "totalSupply")
 	return s
